@@ -216,7 +216,8 @@ def random_history(draw):
     # (x, n-x) would make "other" a negated twin of "bound": keep the pool free of that so the labels mean what they say
     if len({min(s, N - s) for s in sks}) < NSIGNER:
         sks = [1 + i for i in range(NSIGNER)]
-    steps = draw(st.lists(st.one_of(gen_step(), sign_step(), sign_step()), min_size=2, max_size=50))
+    one = st.one_of(gen_step(), sign_step(), sign_step())
+    steps = draw(st.one_of(st.lists(one, min_size=2, max_size=12), st.lists(one, min_size=12, max_size=30), st.lists(one, min_size=30, max_size=50)))
     return {"sks": sks, "msgs": [draw(gens.hexbytes(32)), draw(gens.hexbytes(32))], "xtweak": draw(st.one_of(st.none(), gens.seckey_valid)),
             "steps": steps}
 
@@ -394,7 +395,7 @@ def run_random(env, case):
 
 
 TESTS = [
-    Test("histories", histories, run_enum, kind="enum", max_workers=16,
+    Test("histories", histories, run_enum, kind="enum", max_workers=8,
          must_cover=["sign_success", "reuse_after_success", "sign_attempt_after_failed_call", "failed_gen_over_live_nonce",
                      "failing_sign_on_live:sign_negated_key", "failing_sign_on_live:sign_null_out", "failing_sign_on_live:sign_other_key",
                      "failing_sign_on_live:sign_bad_cache", "failing_sign_on_live:sign_bad_session", "failing_sign_on_live:sign_null_keypair"]),
